@@ -116,6 +116,14 @@ def membership_facts(test: ast.AST, outcome: bool) -> List[Tuple[str, str, bool]
             return [(test.left.id, _table_text(table), outcome)]
         if isinstance(op, ast.NotIn):
             return [(test.left.id, _table_text(table), not outcome)]
+    # `T.get(x) is None` / `T.get(x) is not None` (no default given): absent / present
+    if isinstance(test, ast.Compare) and len(test.ops) == 1 and isinstance(test.ops[0], (ast.Is, ast.IsNot, ast.Eq, ast.NotEq)) \
+            and isinstance(test.comparators[0], ast.Constant) and test.comparators[0].value is None:
+        c = test.left
+        if isinstance(c, ast.Call) and isinstance(c.func, ast.Attribute) and c.func.attr == "get" and len(c.args) == 1 \
+                and not c.keywords and isinstance(c.args[0], ast.Name):
+            is_none = isinstance(test.ops[0], (ast.Is, ast.Eq))
+            return [(c.args[0].id, _table_text(c.func.value), (not outcome) if is_none else outcome)]
     return []
 
 
@@ -337,6 +345,7 @@ def _ancestors(n):
 def key_templates(ctx, f, key_expr: ast.AST, depth: int = 0) -> List[Tuple[str, ast.AST]]:
     """Templates (text with ⟨hole⟩s, defining node) a dict-key expression may evaluate to.  Names are followed through
     their reaching definitions (plain assignments only)."""
+    key_expr = expand_fstring(ctx, f, key_expr)
     t = fstring_template(key_expr)
     if t is None and isinstance(key_expr, ast.BinOp) and isinstance(key_expr.op, ast.Add):
         t = _concat_template(key_expr)
@@ -357,6 +366,39 @@ def key_templates(ctx, f, key_expr: ast.AST, depth: int = 0) -> List[Tuple[str, 
     if isinstance(key_expr, ast.IfExp):
         return key_templates(ctx, f, key_expr.body, depth + 1) + key_templates(ctx, f, key_expr.orelse, depth + 1)
     return [("⟨" + ast.unparse(key_expr) + "⟩", key_expr)]
+
+
+def expand_fstring(ctx, f, node: ast.AST, depth: int = 0) -> ast.AST:
+    """An f-string in which every hole that is a plain local name with exactly one reaching definition `name = <f-string or
+    string literal>` is replaced by the parts of that definition (`suffix = f'_in{i}'; f'weight{suffix}'` -> f'weight_in{i}').
+    The remaining hole expressions are the original nodes of the tree (reaching definitions can be asked for them).
+    Other expressions are returned unchanged."""
+    if not isinstance(node, ast.JoinedStr) or depth > 3:
+        return node
+    values: List[ast.AST] = []
+    changed = False
+    for v in node.values:
+        if isinstance(v, ast.FormattedValue) and v.format_spec is None and v.conversion == -1 and isinstance(v.value, ast.Name):
+            defs = ctx.rd(f).defs_reaching(v.value)
+            val = assigned_value(defs[0], v.value.id) if len(defs) == 1 and not isinstance(defs[0], ast.arguments) else None
+            if isinstance(val, ast.Constant) and isinstance(val.value, str):
+                values.append(ast.Constant(value=val.value))
+                changed = True
+                continue
+            if isinstance(val, ast.JoinedStr):
+                values += list(expand_fstring(ctx, f, val, depth + 1).values)
+                changed = True
+                continue
+        values.append(v)
+    if not changed:
+        return node
+    merged: List[ast.AST] = []
+    for v in values:
+        if isinstance(v, ast.Constant) and merged and isinstance(merged[-1], ast.Constant):
+            merged[-1] = ast.Constant(value=str(merged[-1].value) + str(v.value))
+        else:
+            merged.append(v)
+    return ast.JoinedStr(values=merged)
 
 
 def _concat_template(e: ast.AST) -> Optional[str]:
@@ -541,6 +583,13 @@ class _State:
         return _State(store, dict(self.facts))
 
     def assume(self, facts) -> bool:
+        facts = list(facts)
+        for k, b in list(facts):
+            # None is falsy: "<x>∅" true implies <x> false, <x> true implies "<x>∅" false
+            if k.endswith("∅") and b:
+                facts.append((k[:-1], False))
+            elif not k.endswith("∅") and b:
+                facts.append((k + "∅", False))
         for k, b in facts:
             if self.facts.get(k, b) != b:
                 return False
@@ -610,6 +659,20 @@ class _ListInterp:
             return []
         if isinstance(test, ast.Constant):
             return [] if bool(test.value) == outcome else [("⊥", True), ("⊥", False)]
+        if isinstance(test, ast.Compare) and len(test.ops) == 1 and isinstance(test.ops[0], (ast.Is, ast.IsNot, ast.Eq, ast.NotEq)) \
+                and isinstance(test.comparators[0], ast.Constant) and test.comparators[0].value is None \
+                and isinstance(test.left, (ast.Name, ast.Attribute)):
+            # `x is None`: recorded under the key "<x>∅"
+            if isinstance(test.left, ast.Name):
+                v = s.store.get(test.left.id)
+                if isinstance(v, LVal):
+                    return []
+                key = v.key if isinstance(v, Scalar) else self.prefix + test.left.id
+                if isinstance(v, Scalar) and v.is_const:
+                    return [] if (v.const is None) == (outcome == isinstance(test.ops[0], (ast.Is, ast.Eq))) else [("⊥", True), ("⊥", False)]
+            else:
+                key = ast.unparse(test.left)
+            return [(key + "∅", outcome == isinstance(test.ops[0], (ast.Is, ast.Eq)))]
         if isinstance(test, ast.Name):
             v = s.store.get(test.id)
             if isinstance(v, Scalar):
@@ -842,6 +905,8 @@ class _ListInterp:
                             outs.append(s1)
                         return outs
                     recv.bad = True
+                elif isinstance(recv, Delegate):
+                    s.store[c.func.value.id] = LVal(bad=True)       # the parent's list is modified afterwards: not understood
             return [s]
         if isinstance(node, (ast.For, ast.AsyncFor)):
             for nm in target_names(node.target):
@@ -881,6 +946,8 @@ class _ListInterp:
     def taint(self, s: _State, e):
         if isinstance(e, ast.Name) and isinstance(s.store.get(e.id), LVal):
             s.store[e.id].bad = True
+        elif isinstance(e, ast.Name) and isinstance(s.store.get(e.id), Delegate):
+            s.store[e.id] = LVal(bad=True)
 
     def bind(self, s: _State, target, v, value_expr, node):
         if isinstance(target, ast.Name):
